@@ -170,3 +170,58 @@ def replay_irwf(rec, verbose=True):
             print("PROBLEM", p)
     kind = rec["key"].split("|")[2]
     return any(p["kind"] == kind for p in probs)
+
+
+# ---------------------------------------------------------------------------------------------
+# gate properties (C11, C12, C13): the front end's accept/reject decision, plus behaviour of
+# accepted programs against the reference where the case carries inputs
+# ---------------------------------------------------------------------------------------------
+def gate(prop, case, agg):
+    from . import lang
+    from .engine import case_prog, check_ref
+    from .nslapi import compile_src
+
+    src = case["src"] if "src" in case else lang.render(case_prog(case), case.get("mode", "min"))
+    want = case["expect"]
+    if want == "accept" and case["units"] and case["units"][0]["inputs"] and "src" not in case:
+        before = len(agg.fails), sum(agg.counts.values())
+        check_ref(prop, case, agg)   # compiles, runs and compares; a rejection is reported as not-compiled
+        agg.stats["accepted-and-run"] += 1
+        return
+    res = compile_src(src)
+    agg.evals += 1
+    agg.nontrivial += 1
+    agg.stats["decision:" + res.status] += 1
+    if want == "reject" and res.status != "reject":
+        agg.fail({"key": f"{prop}|{case['fam']}|accepted-must-reject|{res.status}|{case['desc']}", "source": src,
+                  "expected": "rejected: " + case.get("why", ""), "observed": res.cls() + " " + (res.msg or "")})
+    elif want == "accept" and res.status == "reject":
+        agg.fail({"key": f"{prop}|{case['fam']}|rejected-must-accept|{res.exc}@{res.where}|{case['desc']}", "source": src,
+                  "expected": "accepted: " + case.get("why", ""), "observed": res.cls() + " " + (res.msg or "")})
+    elif want == "accept" and res.status == "internal":
+        agg.stats["accepted-by-gate-then-internal(C05)"] += 1
+    if len(agg.samples) < 2:
+        agg.samples.append({"source": src[:500], "expect": want})
+
+
+def replay_gate(rec, verbose=True):
+    from .engine import replay_ref
+    from .nslapi import compile_src
+
+    if "inputs" in rec and "entry" in rec:
+        return replay_ref(rec, verbose)
+    res = compile_src(rec["source"])
+    if verbose:
+        print(rec["source"])
+        print("expected:", rec["expected"], "\nobserved:", res.cls(), res.msg or "")
+        print("def test_replay():\n    from nsl import Compiler\n    try:\n"
+              f"        r = Compiler.Compiler().Compile({rec['source']!r})\n    except BaseException:\n        r = None\n"
+              + ("    assert r is None" if "must-reject" in rec["key"] else "    assert r is not None"))
+    kind = rec["key"].split("|")[2]
+    if kind == "accepted-must-reject":
+        return res.status != "reject"
+    if kind == "rejected-must-accept":
+        return res.status == "reject"
+    if kind == "not-compiled":
+        return not res.ok
+    return False
